@@ -309,6 +309,36 @@ def replace_char(s: BStr, a: str, b: str) -> BStr:
     return compact(segs, cnts, s.cap * m)
 
 
+def replace_str(s: BStr, pat: str, rep: str) -> BStr:
+    """s.replace(pat, rep) for a constant non-empty pattern of any length: leftmost, non-overlapping matches, as CPython
+    does it.  `rem` counts the characters of the current match that are still to be skipped."""
+    m = len(pat)
+    if m == 1:
+        return replace_char(s, pat, rep)
+    assert m >= 2
+    for c in pat + rep:
+        if c not in IDX:
+            raise Unsupported(f"replace: {c!r} outside Sigma")
+    RW = 4
+    assert m < 2**RW
+    rem = z3.BitVecVal(0, RW)
+    width = max(1, len(rep))
+    segs, cnts = [], []
+    for i in range(s.cap):
+        if i + m <= s.cap:
+            match = z3.And(inb(s, i + m - 1), *[s.ch[i + k] == C(pat[k]) for k in range(m)])
+        else:
+            match = z3.BoolVal(False)
+        start = z3.And(rem == 0, match)
+        skip = rem != 0
+        segs.append([z3.If(start, C(rep[k]) if k < len(rep) else bv(PAD), s.ch[i] if k == 0 else bv(PAD)) for k in range(width)])
+        cnts.append(z3.If(inb(s, i), z3.If(start, lv(len(rep)), z3.If(skip, lv(0), lv(1))), lv(0)))
+        rem = z3.If(start, z3.BitVecVal(m - 1, RW), z3.If(skip, rem - 1, rem))
+    if not segs:
+        return s
+    return compact(segs, cnts, s.cap * width)
+
+
 def remove_chars(s: BStr, drop: list) -> BStr:
     """Delete the positions whose `drop[i]` holds."""
     return compact([[s.ch[i]] for i in range(s.cap)], [z3.If(z3.And(inb(s, i), z3.Not(drop[i])), lv(1), lv(0)) for i in range(s.cap)], s.cap)
